@@ -143,6 +143,12 @@ PROPS = {
                                 thrs=[200, 400, 0, 0], caches=[0, 0, 2, 100], dbs=["mem"], nkeys=5, p_load_old=0.0,
                                 ivs=[None]),
                 title="storage failures surface as errors"),
+    "C13": dict(kind="multi", quick_n=400, thorough_n=4000, title="on-disk format, total decoders",
+                parts=[dict(gen="codec", mode="codec", frac=1.0),
+                       dict(gen="profile", mode="exec", frac=0.6,
+                            profile=Profile(dump=1.0, p_prune=0.3, p_noop_version=0.3, p_loadow=0.1, p_reopen=0.2,
+                                            check_all_versions=0.05, p_hash_read=0.2, reads_per_version=(0, 1),
+                                            imm_reads_per_version=(0, 1), meta_per_version=(0, 1)))]),
     "C14": dict(kind="v1hist", quick_n=1500, thorough_n=4000,
                 profile=Profile(meta_per_version=(2, 5), p_load_old=0.25, p_prune=0.3, p_reopen=0.25,
                                 check_all_versions=0.2, p_noop_version=0.35),
@@ -224,6 +230,8 @@ def corpus(prop):
 
 def nontrivial(lines):
     """a history is non-trivial if it commits >= 2 versions and makes >= 1 structural change"""
+    if len(lines) > 1 and lines[1].split()[0] in ("makenode", "makelegacy", "fastnode", "decbytes", "decvarint", "decuvarint", "rootval"):
+        return True
     if lines and lines[0].startswith("knew"):
         return sum(1 for l in lines if l.startswith("kset") or l.startswith("kbwrite")) >= 2
     saves = sum(1 for l in lines if l == "save" or l.startswith("savecs") or l.startswith("import"))
@@ -263,7 +271,18 @@ def run_check(prop, tier, seed, n_override=None):
                 return 1
         proof_broken = broken is not None or proof["obligations"] != proof["discharged"] or bool(proof["grep_gate"])
         n = n_override or (cfg["thorough_n"] if (tier == "thorough" or proof_broken) else cfg["quick_n"])
-        if cfg.get("gen") == "kv":
+        if cfg.get("kind") == "multi":
+            hists = list(corpus(prop))
+            groups = []
+            for part in cfg["parts"]:
+                k = max(1, int(n * part["frac"]))
+                if part["gen"] == "codec":
+                    hs = v1gen.gen_codec(seed, k)
+                else:
+                    hs = v1gen.generate(seed, k, part["profile"])
+                groups.append((part["mode"], hs))
+                hists += hs
+        elif cfg.get("gen") == "kv":
             hists = corpus(prop) + v1gen.gen_kv(seed, n)
         elif cfg.get("gen") == "c11":
             hists = corpus(prop) + v1gen.gen_c11(seed, n)
@@ -272,7 +291,20 @@ def run_check(prop, tier, seed, n_override=None):
         else:
             hists = corpus(prop) + v1gen.generate(seed, n, cfg["profile"])
         mode = cfg.get("mode", "exec")
-        results = C.run_parallel(hists, work, mode=mode)
+        if cfg.get("kind") == "multi":
+            results = []
+            cps = corpus(prop)
+            if cps:
+                results += C.run_parallel(cps, work, mode="exec")
+            for gi, (gmode, hs) in enumerate(groups):
+                results += C.run_parallel(hs, os.path.join(work, "g%d" % gi), mode=gmode)
+            mode_of = {}
+            for gmode, hs in groups:
+                for hid, _ in hs:
+                    mode_of[hid] = gmode
+        else:
+            results = C.run_parallel(hists, work, mode=mode)
+            mode_of = {}
         oracle = cfg.get("oracle")
         ops = 0
         agreed = 0
@@ -298,19 +330,21 @@ def run_check(prop, tier, seed, n_override=None):
                 print("KNOWN-FINDING: property=%s %s (%s)" % (prop, k["what"], k["id"]))
         nviol = 0
         for h, d in violations[:3]:
-            def still(lines, d0=d):
-                r = C.run_one(lines, work, mode=mode, tag="shrink")
+            hmode = mode_of.get(h["id"], mode)
+
+            def still(lines, d0=d, hmode=hmode):
+                r = C.run_one(lines, work, mode=hmode, tag="shrink")
                 d1 = C.first_divergence(r, oracle)
                 return d1 is not None and d1["kind"] == d0["kind"] and not match_known(prop, lines, d1)
             small = C.shrink(h["lines"], still, budget_s=45 if tier == "quick" else 120)
-            r = C.run_one(small, work, mode=mode, tag="final")
+            r = C.run_one(small, work, mode=hmode, tag="final")
             d1 = C.first_divergence(r, oracle) or d
             nviol += 1
             path = C.write_replay(prop, seed, nviol, {
                 "property": prop, "kind": "spec-violation" if d1["kind"] != "diverge" or True else "correspondence",
                 "history": small, "first_diverging_line": d1["line"], "line_index": d1["idx"],
                 "implementation": d1["impl"], "model": d1["model"], "why": d1.get("why"),
-                "original_history_id": h["id"],
+                "original_history_id": h["id"], "harness_mode": hmode,
                 "replay_cmd": "bin/check %s --replay <this file>" % prop})
             print("VIOLATION property=%s replay=%s" % (prop, path))
         if not violations and proof_broken:
@@ -358,7 +392,7 @@ def replay(prop, path):
     C.prepare(prop)
     work = C.mkwork(prop)
     try:
-        res = C.run_one(lines, work, mode=PROPS[prop].get("mode", "exec"), tag="replay")
+        res = C.run_one(lines, work, mode=r.get("harness_mode") or PROPS[prop].get("mode", "exec"), tag="replay")
         for l, i, m in zip(res["lines"], res["impl"], res["model"]):
             mark = "   " if (m in (None, "?") or C.split_oracle(i)[0] == m) else "!!!"
             print("%s %s\n      impl : %s\n      model: %s" % (mark, l, i, m))
